@@ -280,9 +280,13 @@ def fold_task(task, res):
             bad = [k for k, c in claims if S.holds(p.pc, c)[0] != 'unsat']
             tag = 'fold/%s/%s' % (mode, '+'.join(bad))
             tags[tag] = tags.get(tag, 0) + 1
-            if tags[tag] <= 1:
+            if tags[tag] <= 2:
+                ev = lambda t: m.eval(t, model_completion=True)
+                val = lambda x: (z3.is_true(ev(x.t)) if isinstance(x, S.SymBool) else ev(T(x)).as_long())
+                conc = lambda d_: {k: ([val(x) for x in v_] if isinstance(v_, (list, tuple)) else val(v_)) for k, v_ in d_.items()}
                 res['cex'].append({'tag': tag, 'what': 'loop body does not implement the fold step for: %s (R=%d, %s step, students=%d)' % (bad, R, mode, nst),
-                                   'data': {'kind': 'fold', 'R': R, 'ns': nst, 'mode': mode, 'bad': bad}})
+                                   'data': {'kind': 'fold', 'R': R, 'ns': nst, 'nl': nl, 'mode': mode, 'bad': bad,
+                                            'rec': conc(rec), 'pre': conc(pre) if pre is not None else None}})
     res['sample'] = dict(task, paths=len(paths))
     return res
 
@@ -436,6 +440,89 @@ def run_task(task):
     return res
 
 
+def fold_concrete(d):
+    """one iteration of the REAL loop body from a concrete accumulator state with a concrete record
+    (the statistic helpers return the record's numbers); returns (bad, text)"""
+    nsm = repo.load('real')
+    bfm = nsm.bf
+    R, nst, nl = d['R'], d['ns'], d.get('nl', 1)
+    I = spec.Inst(3, nst, R, nl, [[[k + 1] for k in range(R)] for _ in range(nst)], [1] * R, None, [0] * R, [nst] * R,
+                  [0] * nl, [0] * nl, [2] * nl)
+    import os, shutil, tempfile
+    tmp = tempfile.mkdtemp(prefix='vf_c07f_')
+    try:
+        path = os.path.join(tmp, 'i.txt')
+        with open(path, 'w') as f:
+            f.write(spec.inst_to_text(I))
+        sv = nsm.solver.Solver(['-f', path, '-na', '3', '-bf'])
+    finally:
+        shutil.rmtree(tmp, ignore_errors=True)
+    model = sv.model
+    solver = bfm.Brute_force_solver(sv.options_parser.instance_options, model)
+    rec, pre = d['rec'], d['pre']
+    mark = Mark()
+    solver.get_matching_pairs = lambda m: mark
+    solver.is_valid = lambda pairs: bool(rec['valid'])
+    model._get_cost = lambda p: tuple(rec['cost'])
+    model._get_cost_sq = lambda p: tuple(rec['sq'])
+    model._get_degree = lambda p: rec['deg']
+    model._get_profile = lambda p: list(rec['prof'])
+    model._get_max_lec_abs_diff = lambda p: rec['md']
+    model._get_sum_lec_abs_diff = lambda p: rec['sd']
+
+    def my_product(*a, **k):
+        if pre is not None:
+            solver.optimal_size = pre['size']
+            solver.optimal_maxsizemincost = tuple(pre['cost'])
+            solver.optimal_maxsizeminsqcost = tuple(pre['sq'])
+            solver.optimal_maxsizemindegree = pre['deg']
+            solver.optimal_generousmaxprofile = list(pre['gen'])
+            solver.optimal_greedymaxprofile = list(pre['gre'])
+            solver.optimal_greedyprofile = list(pre['allgre'])
+            solver.optimal_max_lec_abs_diff = pre['md']
+            solver.optimal_sum_lec_abs_diff = pre['sd']
+        yield tuple([0] * nst)
+    saved = (getattr(bfm, 'len', None), bfm.product)
+    bfm.len = lambda x: rec['size'] if x is mark else builtins.len(x)
+    bfm.product = my_product
+    try:
+        try:
+            solver.run()
+        except Exception as e:  # noqa
+            return True, 'real loop body raised %r from accumulator state %s with record %s' % (e, pre, rec)
+    finally:
+        bfm.product = saved[1]
+        if saved[0] is None:
+            del bfm.len
+        else:
+            bfm.len = saved[0]
+    post = {'size': solver.optimal_size, 'cost': tuple(solver.optimal_maxsizemincost) if isinstance(solver.optimal_maxsizemincost, (tuple, list)) else solver.optimal_maxsizemincost,
+            'sq': tuple(solver.optimal_maxsizeminsqcost) if isinstance(solver.optimal_maxsizeminsqcost, (tuple, list)) else solver.optimal_maxsizeminsqcost,
+            'deg': solver.optimal_maxsizemindegree, 'gen': list(solver.optimal_generousmaxprofile), 'gre': list(solver.optimal_greedymaxprofile),
+            'allgre': list(solver.optimal_greedyprofile), 'md': solver.optimal_max_lec_abs_diff, 'sd': solver.optimal_sum_lec_abs_diff}
+    v = bool(rec['valid'])
+    prof = list(rec['prof'])
+    if pre is None:
+        want = {'size': rec['size'], 'cost': tuple(rec['cost']), 'sq': tuple(rec['sq']), 'deg': rec['deg'], 'gen': prof, 'gre': prof,
+                'allgre': prof, 'md': rec['md'], 'sd': rec['sd']}
+    else:
+        bigger = v and rec['size'] > pre['size']
+        same = v and rec['size'] == pre['size']
+        gen_key = lambda p_: tuple(reversed(p_))
+        want = {'size': rec['size'] if bigger else pre['size'],
+                'cost': tuple(rec['cost']) if bigger or (same and tuple(rec['cost']) < tuple(pre['cost'])) else tuple(pre['cost']),
+                'sq': tuple(rec['sq']) if bigger or (same and tuple(rec['sq']) < tuple(pre['sq'])) else tuple(pre['sq']),
+                'deg': rec['deg'] if bigger or (same and rec['deg'] < pre['deg']) else pre['deg'],
+                'gen': prof if bigger or (same and gen_key(prof) < gen_key(pre['gen'])) else list(pre['gen']),
+                'gre': prof if bigger or (same and tuple(prof) > tuple(pre['gre'])) else list(pre['gre']),
+                'allgre': prof if v and tuple(prof) > tuple(pre['allgre']) else list(pre['allgre']),
+                'md': rec['md'] if v and rec['md'] < pre['md'] else pre['md'],
+                'sd': rec['sd'] if v and rec['sd'] < pre['sd'] else pre['sd']}
+    wrong = {k: (post[k], want[k]) for k in want if post[k] != want[k]}
+    return bool(wrong), 'real loop body (max rank %d, %d students) from accumulator state %s with %s record %s: got vs expected %s' % (
+        R, nst, pre if pre is not None else '<initial values>', 'valid' if v else 'invalid', {k: rec[k] for k in rec if k != 'valid'}, wrong or 'all equal')
+
+
 def replay(cex):
     d = cex['data']
     if d['kind'] == 'e2e':
@@ -484,6 +571,10 @@ def replay(cex):
             bad, what, detail = e2e_run(dd)
             if bad:
                 return True, 'fold-step counterexample (%s) shown end to end:\n%s' % (cex['what'], detail)
+    # not shown end to end by the small grid: replay the counterexample itself on the real loop body
+    if d.get('rec') is not None:
+        bad, text = fold_concrete(d)
+        return bad, 'fold-step counterexample (%s), replayed on the real loop body (statistic helpers return the record):\n%s' % (cex['what'], text)
     return False, 'no concrete instance in the replay grid exhibits the fold-step counterexample'
 
 
